@@ -126,7 +126,7 @@ func runC07(e *Env) {
 			e.Violate("C07", "panic-kills-goroutine", fmt.Sprintf("a panic escaped a library goroutine started at %s: %v", esc.Site, esc.Value))
 		}
 	}
-	if !h.Returned && h.Panic == nil {
+	if !h.Ret() && h.Panic == nil {
 		e.Violate("C07", "subscribe-blocked", fmt.Sprintf("Subscribe did not return (faults %v, trace %s)", sc.Faults, rec.Trace()))
 		return
 	}
@@ -234,7 +234,7 @@ func runC07(e *Env) {
 	if e.K.Capped() {
 		return
 	}
-	if !h2.Returned {
+	if !h2.Ret() {
 		e.Violate("C07", "unusable-after-failure", fmt.Sprintf("after fault %s at %s#%d a new Subscribe on the same observable does not return", f.Kind, f.Site, f.Inv))
 	} else if msg := rec2.GrammarError(); msg != "" {
 		e.Violate("C01", "grammar", msg)
